@@ -1042,3 +1042,89 @@ def m_str_ord(ex, st, c):
     if op == 'le': return str_less(a, b, True)
     if op == 'gt': return str_less(b, a, False)
     return str_less(b, a, True)
+
+
+# ------------------------------------------------------------------ closure / fn-item patterns for find and split
+def _pred_table(ex, st, s, clo, k):
+    """apply a char predicate to every byte of a concrete-length string; k(list of results)"""
+    f = s.flat()
+    if not f.conc_len: raise Unsupported('closure pattern over a symbolic-length string')
+    if f.ln > 128: raise Unsupported('closure pattern over a long string')
+    return MD.closure_on_bytes(ex, clo, f, list(range(f.ln)), k)
+
+
+def _wrap_find_split():
+    old_find = MD.m_find
+
+    def m_find2(ex, st, c):
+        v = ex.deref(st, c.args[1])
+        if isinstance(v, (Closure, FnItem)):
+            s = D(ex, st, c.args[0])
+
+            def done(bits):
+                found = False; idx = 0
+                for i in range(len(bits) - 1, -1, -1):
+                    b = bits[i]
+                    b = simp_bool(b) if not isinstance(b, bool) else b
+                    if b is False: continue
+                    idx = ite_bv(b, i, idx, LW); found = b_or(found, b)
+                if found is False: return NONE
+                if found is True: return Some(usize(idx))
+                return Fork([(found, Some(usize(idx))), (b_not(found), NONE)])
+            return _pred_table(ex, st, s, v, done)
+        return old_find(ex, st, c)
+    old_split = None
+    for i, (pat, fn) in enumerate(MD.REGISTRY):
+        if fn is old_find: MD.REGISTRY[i] = (pat, m_find2)
+    MD.m_find = m_find2
+
+
+_wrap_find_split()
+
+
+def m_split_closure(ex, st, c):
+    """str::split with a closure / fn-item pattern on a string whose separator positions are decidable (reached only when the
+    older split model does not apply: registered with the lowest priority)"""
+    v = ex.deref(st, c.args[1])
+    if not isinstance(v, (Closure, FnItem)): raise Unsupported('split pattern %r' % (v,))
+    s = D(ex, st, c.args[0])
+
+    def done(bits):
+        bits = [simp_bool(b) if not isinstance(b, bool) else b for b in bits]
+        if not all(isinstance(b, bool) for b in bits): raise Unsupported('split by a closure whose result depends on symbolic bytes')
+        pieces = []; start = 0
+        for i, b in enumerate(bits):
+            if b: pieces.append(s.substr(start, i - start)); start = i + 1
+        pieces.append(s.substr(start, len(bits) - start))
+        return Iter('vec', pieces)
+    return _pred_table(ex, st, s, v, done)
+
+
+def _wrap_split():
+    old = MD.m_split
+
+    def m_split2(ex, st, c):
+        v = ex.deref(st, c.args[1])
+        if isinstance(v, (Closure, FnItem)): return m_split_closure(ex, st, c)
+        return old(ex, st, c)
+    for i, (pat, fn) in enumerate(MD.REGISTRY):
+        if fn is old: MD.REGISTRY[i] = (pat, m_split2)
+    MD.m_split = m_split2
+
+
+_wrap_split()
+
+
+def _wrap_split_collect():
+    old = MD.m_split_collect
+
+    def m_split_collect2(ex, st, c):
+        it = D(ex, st, c.args[0])
+        if not (isinstance(it, Opaque) and it.tag == 'Split'): return m_g_consume(ex, st, c)
+        return old(ex, st, c)
+    for i, (pat, fn) in enumerate(MD.REGISTRY):
+        if fn is old: MD.REGISTRY[i] = (pat, m_split_collect2)
+    MD.m_split_collect = m_split_collect2
+
+
+_wrap_split_collect()
